@@ -77,6 +77,7 @@ type FamilyDecl struct {
 	Enc     string   // "proto", "be64", "str", "raw", "unit", "protoU64", "protoStr"...
 	Prefix  []string // partial key functions producing prefixes of this family (for iterators)
 	Slices  map[string]int // "9:" -> index of the key argument obtained by slicing a full key
+	FixedLen []int         // key components declared to be of fixed encoded length (key-layout audit)
 	Line    int
 }
 
@@ -202,6 +203,14 @@ func ParseSpecFile(path string) (*SpecFile, error) {
 					fd.Enc = fs[i+1]
 				case "prefix":
 					fd.Prefix = strings.Split(fs[i+1], ",")
+				case "fixedlen":
+					// key components (0-based) of string / byte type whose encoded length is fixed (declared assumption,
+					// e.g. a bech32 account address of this chain): the key-layout audit treats them as self-delimiting
+					for _, x := range strings.Split(fs[i+1], ",") {
+						if n, err := strconv.Atoi(x); err == nil {
+							fd.FixedLen = append(fd.FixedLen, n)
+						}
+					}
 				case "slice":
 					if fd.Slices == nil {
 						fd.Slices = map[string]int{}
